@@ -188,6 +188,8 @@ def trajectory_task(kind, kw, n_ages):
         rec = Recorder(PROP, task, [McmcSaemCompatibleModel.compute_individual_trajectory, McmcSaemCompatibleModel._get_tensorized_inputs,
                                     TimeReparametrizedModel._audit_individual_parameters, McmcSaemCompatibleModel._put_data_timepoints, State.clone, type(probe).model_with_sources])
 
+        hold2 = {}
+
         def run():
             m, ins = _model_with_params(kind, kw)
             ips = _ips(m)
@@ -200,6 +202,14 @@ def trajectory_task(kind, kw, n_ages):
             out = m.compute_individual_trajectory(ages, call_ips)
             untouched = all(m.state._values[k] is before[k] for k in before) and m.state._last_fork is None
             mm = m.state["mixing_matrix"] if m.has_sources else None
+            # the same model object after an in-place change of its parameters (load_parameters on a loaded model, a fit step):
+            # the next estimate follows the NEW parameters
+            ins2 = {}
+            ins2.update(put_symbolic_parameters(m.state, prefix="n_"))
+            ins2.update(put_symbolic_population(m.state, prefix="n_"))
+            out2 = m.compute_individual_trajectory(ages, call_ips)
+            mm2 = m.state["mixing_matrix"] if m.has_sources else None
+            hold2.update(ins2=ins2, out2=out2, mm2=mm2)
             return m, ins, ips, ages, out, mm, untouched
 
         for c, res in st.explore(run, "R"):
@@ -265,6 +275,34 @@ def trajectory_task(kind, kw, n_ages):
                         if m.has_sources:
                             hyp += [x == 0 for x in allin["sources"].sym.reshape(-1)]
                         rec.prove(f"refpoint[{k}]", z3.Implies(z3.And(*hyp), O[0, 0, k] == 1 / (1 + g)), replay=rp, extra=exp_log_axioms() + lem, what="value at reference time != 1/(1+g)")
+            # second estimate, after the in-place parameter change
+            allin2 = dict(hold2["ins2"])
+            allin2.update(ips)
+            O2 = st.to_terms(hold2["out2"])
+            mix2 = hold2["mm2"].sym if hold2["mm2"] is not None else None
+
+            def rp2(model):
+                src2 = replay_prologue(kind, kw, allin, model) + REF_IMPL + f"ages = {tensor_literal(ages, model)}\n"
+                src2 += "ips = {'xi': I['xi'][0,0], 'tau': I['tau'][0,0]" + (", 'sources': I['sources'][0]" if m.has_sources else "") + "}\n"
+                src2 += "m._state = s\nfirst = m.compute_individual_trajectory(ages, ips)\nJ = dict(I)\n"
+                for name, t_ in hold2["ins2"].items():
+                    src2 += f"J[{name!r}] = {tensor_literal(t_, model)}" + (".abs() + 1e-3" if name.endswith("_std") else "") + "\n"
+                src2 += "with m.state.auto_fork(None):\n    for k, v in J.items():\n        if k not in ('xi', 'tau', 'sources'): m.state[k] = v\n"
+                src2 += "out = m.compute_individual_trajectory(ages, ips)\n"
+                src2 += f"mm = m.state['mixing_matrix'] if {m.has_sources!r} else None\nref = ref_model({kind!r}, J, mm, ages[None, :])\n"
+                src2 += "print('estimate after the in-place parameter change:', out, ' formula with the new parameters:', ref)\nsys.exit(0 if torch.allclose(out.double(), ref, rtol=1e-4, atol=1e-5) else 1)\n"
+                return src2
+
+            rec.obligations += 1
+            if tuple(O2.shape) == (1, n_ages, d):
+                rec.discharged += 1
+                for j in range(n_ages):
+                    for k in range(d):
+                        cf2, _aux = closed_form(kind, allin2, mix2, 0, ages.sym[j], k)
+                        rec.prove(f"after-parameter-change:row[{j}][{k}]", O2[0, j, k] == cf2, replay=rp2, extra=exp_log_axioms(), key="C09:stale-parameters",
+                                  what="an estimate made after the model's parameters were changed in place does not follow the new parameters")
+            else:
+                rec.violation_from_script("shape-after-change", "C09:trajectory-shape", f"sys.exit(1)  # shape {tuple(O2.shape)}\n", "bad layout")
             rec.obligations += 1
             if untouched:
                 rec.discharged += 1
